@@ -446,7 +446,10 @@ def run_rp66v1(ctx, p, audit):
         special = {7: 'long', 23: 'many-pass'}.get(si % 50)
         if special == 'long':
             # a log longer than any per-call buffer and than one byte of frame number: 128 .. 1100 frames, few channels
-            very_long = rng.random() < 0.35           # beyond 2048 rows: longer than any block of rows a writer may buffer
+            # beyond 2048 rows: longer than any block of rows a writer may buffer (by the shard's number rather than by chance, so that
+            # the class is there at every seed however the random stream moves)
+            rng.random()
+            very_long = ctx.shard % 3 == 0
             for _ in range(30):
                 lrs, model = dlis_convertible.convertible_file(rng, max_frames=2600 if very_long else rng.choice([200, 400, 1100]), max_logical_files=1, max_types=1,
                                                                max_channels=3, name_pool=pool, min_frames=2049 if very_long else 2)
@@ -481,6 +484,8 @@ def run_rp66v1(ctx, p, audit):
                     break
             else:
                 kind, args = 'slice', (None, None, None)
+            if special == 'long' and k == 0:
+                kind, args = 'slice', (None, None, None)        # the long log is written whole at least once
             kind, args, sel_obj, sel_again = hist.selector(rng, S, kind, args, lambda k_, a_: k_ == 'sample' or all(
                 len(range(len(ft.frames))[slice(*a_)]) >= 1 for _, ft in passes))
             lfi0, ft0 = rng.choice(passes)
@@ -553,7 +558,7 @@ def run_rp66v1(ctx, p, audit):
                              (['multi-dimensional'] if any(c.count > 1 for _, ft in passes for c in ft.channels) else []) +
                              (['multi-pass'] if len(passes) > 1 else []) + (['passes>=11'] if len(passes) >= 11 else []) +
                              (['frames>=128'] if any(len(ft.frames) >= 128 for _, ft in passes) else []) +
-                             (['frames>=1024'] if any(len(ft.frames) >= 1024 for _, ft in passes) else []) +
+                             (['frames>=1024'] if any(len(ft.frames) >= 1024 for _, ft in passes) else []) + (['frames>=2049'] if any(len(ft.frames) >= 2049 for _, ft in passes) else []) +
                              (['names-from-shared-pool'] if pool else []) +
                              (['history:selector-object-reused'] if sel_again else []) + (['history:channel-set-object-reused'] if set_again else []) +
                              (['width<=6'] if width <= 6 else []) + (['selector:bound-beyond-2^31'] if kind == 'slice' and any(isinstance(a_, int) and abs(a_) >= 2 ** 31 for a_ in args) else []),
